@@ -228,6 +228,8 @@ def run(pid, tier, seed, replay=None):
              ("known", seed + 2, 60 if quick else (8000 if pid == "C01" else 1200), 8), ("columns", seed + 3, 120 if quick else (10000 if pid == "C01" else 2500), 6),
              ("shapes", seed + 4, 50 if quick else (3000 if pid == "C01" else 600), 6)]
     if pid == "C01":
+        # every serializable descriptor of the database (canonical and alias spellings) as a one-property instance
+        plans.append(("descriptors", seed + 7, 0, 6))
         # several hundred instances per file (multi-byte referents, long columns); only the round-trip clauses
         # are cheap enough at this size (decoding such a file inside TLC takes tens of minutes)
         plans.append(("scale", seed + 5, 12 if quick else 300, 6))
@@ -239,6 +241,9 @@ def run(pid, tier, seed, replay=None):
     for mode, sd, count, maxi in plans:
         trace = os.path.join(OUT, "%s_bin_%s.ndjson" % (pid, mode))
         rbxv(["bin-cases", "--seed", sd, "--count", count, "--max-instances", maxi, "--mode", mode], stdout_path=trace)
+        if mode == "descriptors" and quick:
+            lines = open(trace).readlines()
+            open(trace, "w").writelines([l for i, l in enumerate(lines) if (i + seed) % 2 == 0])
         n, fails = validate_cases("BinaryFormatTrace", trace,
                                   dict(env, DIALECT="code", CLAUSES="roundtrip" if pid == "C01" else "all"))
         total += n
